@@ -12,7 +12,18 @@ BEHAVIOURS = {
     'nbret404': (404, False),
     'nb500': (500, False),
     'boom': (500, True),
+    # one pre-built error object (an application-level constant) raised / returned by every route with this behaviour
+    'nb403-shared': (403, False),
+    'nbret404-shared': (404, False),
 }
+SHARED = {}
+
+
+def reset_shared():
+    """fresh shared error objects (called at the start of a case so that a case replays on its own)"""
+    from clastic import errors
+    SHARED['nb403'] = errors.Forbidden(is_breaking=False)
+    SHARED['nbret404'] = errors.NotFound(is_breaking=False)
 
 
 def method_set(methods):
@@ -77,7 +88,9 @@ def path_match_count(table, path):
 def make_endpoint(rid, beh, names=()):
     """harness endpoint with the given behaviour; body names the route and echoes its params"""
     from clastic import Response, errors
-    ns = {'Response': Response, 'errors': errors, 'rid': rid}
+    if not SHARED:
+        reset_shared()
+    ns = {'Response': Response, 'errors': errors, 'rid': rid, 'SHARED': SHARED}
     body = {
         'answer': "return Response('route-%s' % rid)",
         'raise403': "raise errors.Forbidden()",
@@ -88,6 +101,8 @@ def make_endpoint(rid, beh, names=()):
         'nbret404': "return errors.NotFound(is_breaking=False)",
         'nb500': "raise errors.InternalServerError(is_breaking=False)",
         'boom': "raise ZeroDivisionError('boom-%s' % rid)",
+        'nb403-shared': "raise SHARED['nb403']",
+        'nbret404-shared': "return SHARED['nbret404']",
     }[beh]
     src = 'def ep(%s):\n    %s\n' % (', '.join(names), body)
     exec(src, ns)
